@@ -14,8 +14,13 @@ import (
 	"io"
 	"net/http"
 	"net/http/httptest"
+	"os"
+	"runtime"
+	"runtime/debug"
 	"strings"
 	"sync"
+	"syscall"
+	"time"
 	"unicode/utf8"
 
 	"github.com/ozontech/file.d/pipeline"
@@ -605,5 +610,134 @@ func SplitJSONStream(body []byte) ([][]byte, error) {
 			return out, fmt.Errorf("value #%d at offset %d: %w", len(out), dec.InputOffset(), err)
 		}
 		out = append(out, []byte(raw))
+	}
+}
+
+// NormUTF8 replaces every invalid UTF-8 byte of s by U+FFFD, one per byte —
+// what encoding/json does while parsing, so raw strings taken from the plugin
+// compare equal to strings of the model tree.
+func NormUTF8(s string) string {
+	if utf8.ValidString(s) {
+		return s
+	}
+	var sb strings.Builder
+	for i := 0; i < len(s); {
+		r, n := utf8.DecodeRuneInString(s[i:])
+		if r == utf8.RuneError && n == 1 {
+			sb.WriteRune(utf8.RuneError)
+		} else {
+			sb.WriteString(s[i : i+n])
+		}
+		i += n
+	}
+	return sb.String()
+}
+
+// Sub runs fn on a fresh outcome and copies its first failure into o. When
+// retrySig is not empty the failure is re-labelled with it: used for attempts
+// after a failed one whose first attempt passed the same clauses (the payload of
+// a retry must carry the same, unchanged events).
+func Sub(o *vkit.Outcome, retrySig string, fn func(*vkit.Outcome)) {
+	sub := vkit.NewOutcome()
+	fn(sub)
+	err := sub.FirstErr()
+	if err == nil {
+		return
+	}
+	se := err.(*vkit.SigError)
+	sig := se.Sig
+	msg := se.Err.Error()
+	if retrySig != "" {
+		msg = "a retry after a failed attempt does not carry the batch as the first attempt did (" + sig + "): " + msg
+		sig = retrySig
+	}
+	o.Failf(P, sig, "%s", msg)
+}
+
+// AsString is the reference model of how the plugins read a scalar routing
+// value as text: strings as they are, numbers as their literal, true/false/null
+// as words; containers and absent fields give "".
+func AsString(v *vkit.JNode) string {
+	if v == nil {
+		return ""
+	}
+	switch v.Kind {
+	case 's', 'n':
+		return v.Str
+	case 't':
+		return "true"
+	case 'f':
+		return "false"
+	case 'z':
+		return "null"
+	}
+	return ""
+}
+
+// ---------------------------------------------------------------- runaway guard
+
+// CapMemory puts a hard address-space limit on the test process (backstop: a
+// payload builder that never terminates appends until the machine is out of
+// memory; with the cap the process dies early and the driver keeps its input).
+func CapMemory() {
+	const limit = 8 << 30
+	var rl syscall.Rlimit
+	if err := syscall.Getrlimit(syscall.RLIMIT_AS, &rl); err == nil {
+		if rl.Cur > limit { // RLIM_INFINITY is the largest value
+			rl.Cur = limit
+			_ = syscall.Setrlimit(syscall.RLIMIT_AS, &rl)
+		}
+	}
+}
+
+type nopFailer struct{}
+
+func (nopFailer) Fatalf(string, ...any) {}
+func (nopFailer) Helper()               {}
+
+// Guard runs fn (a call into the plugin) on its own goroutine and watches it:
+// if it has not returned after 30 s (liveness bound) or the heap grew by more
+// than 1 GiB meanwhile, the call will never terminate. A goroutine cannot be
+// stopped, so the failure is recorded with signature sig (replay file + stats
+// are flushed) and the process exits.
+//
+// A panic of fn is returned (value and stack) instead of being re-raised.
+func Guard(test, sig string, cas any, fn func()) (rec any, stack string) {
+	var before runtime.MemStats
+	runtime.ReadMemStats(&before)
+	type res struct {
+		rec   any
+		stack string
+	}
+	done := make(chan res, 1)
+	go func() {
+		defer func() {
+			if r := recover(); r != nil {
+				done <- res{r, string(debug.Stack())}
+				return
+			}
+			done <- res{}
+		}()
+		fn()
+	}()
+	tick := time.NewTicker(25 * time.Millisecond)
+	defer tick.Stop()
+	start := time.Now()
+	for {
+		select {
+		case r := <-done:
+			return r.rec, r.stack
+		case <-tick.C:
+			var ms runtime.MemStats
+			runtime.ReadMemStats(&ms)
+			grown := int64(ms.HeapAlloc) - int64(before.HeapAlloc)
+			if grown > 1<<30 || time.Since(start) > 30*time.Second {
+				msg := fmt.Sprintf("the plugin call did not return: %.1fs elapsed, heap grew by %d MiB and keeps growing (endless loop while building the payload)", time.Since(start).Seconds(), grown>>20)
+				fmt.Printf("VERIF-FAIL property=%s sig=%s: %s\n", P, sig, msg)
+				vkit.Fail(nopFailer{}, P, test, sig, cas, nil, "%s", msg)
+				vkit.WriteStats()
+				os.Exit(1)
+			}
+		}
 	}
 }
